@@ -11,10 +11,17 @@ def refines(self, expr, args, kwargs):
     return den(expr, self.context)
 
 
+def cse_cache_inv(self, key, value):
+    """Object invariant of the CSE cache: an entry for (wrapper, *args) holds the wrapper's denotation."""
+    return value is den(key[0], self.context)
+
+
 EVAL = MapperContract(
     "C02.EvaluationMapper", "pymbolic.mapper.evaluator:EvaluationMapper",
     rec=rec, refines=refines, self_attrs={"context": "strmap"}, extra_args=False,
     property_id="C02")
+EVAL.dict_invs = {"_cse_cache_dict": cse_cache_inv}
+EVAL.variants = [("", {}), ("{cache}", {"_cse_cache_dict": "symdict"})]
 
 
 # ---- entry points: one-line wrappers around the mapper (callee = mapper contract)
